@@ -5,8 +5,8 @@ import Sucds.Proofs.GenEFQueries
 binsearch_range, binsearch}` versus `EF.iter`, `EF.It.next`, `EF.binsearchRange`, `EF.binsearch`
 (`Sucds/Model/EliasFanoFull.lean`).
 
-The generated iterator carries the borrowed `ef`; `itAbs` forgets it (and the bit vector inside the unary iterator),
-`itCon e` puts them back.  `ItOkM e m` is what a model iterator state must satisfy for the generated `next` to
+The generated iterator carries the borrowed `ef`; `efItAbs` forgets it (and the bit vector inside the unary iterator),
+`efItCon e` puts them back.  `EFItOk e m` is what a model iterator state must satisfy for the generated `next` to
 agree (cursor inside the high-bit words, buffer a word, `k ≤ len`); it holds of `EF.iter c e k` and is kept by every
 successful `next`. -/
 set_option linter.unusedSimpArgs false
@@ -17,21 +17,21 @@ open Sucds Sucds.Spec
 /-! ## Abstraction -/
 
 /-- the generated iterator as the model's: forget `ef` and the vector inside `high_iter` -/
-def itAbs (it : GenFn.iter_Iter) : EF.It :=
+def efItAbs (it : GenFn.iter_Iter) : EF.It :=
   ⟨it.k, it.high_iter.map uiAbs, it.low_buf, it.low_mask, it.chunks_in_word, it.chunks_avail⟩
 /-- the model's iterator over `e` as the generated one -/
-def itCon (e : EF) (m : EF.It) : GenFn.iter_Iter :=
+def efItCon (e : EF) (m : EF.It) : GenFn.iter_Iter :=
   ⟨e, m.k, m.high.map (uiCon e.high.bv), m.lowBuf, m.lowMask, m.chunksInWord, m.chunksAvail⟩
 
-@[simp] theorem itAbs_itCon (e : EF) (m : EF.It) : itAbs (itCon e m) = m := by
+@[simp] theorem efItAbs_efItCon (e : EF) (m : EF.It) : efItAbs (efItCon e m) = m := by
   obtain ⟨k, h, a, b, c, d⟩ := m
   cases h <;> rfl
-@[simp] theorem itCon_ef (e : EF) (m : EF.It) : (itCon e m).ef = e := rfl
+@[simp] theorem efItCon_ef (e : EF) (m : EF.It) : (efItCon e m).ef = e := rfl
 
 /-- well-formedness of a generated iterator: its unary iterator runs over the high bits of its `ef` -/
-def ItBv (it : GenFn.iter_Iter) : Prop := ∀ u, it.high_iter = some u → u.bv = it.ef.high.bv
+def EFItBv (it : GenFn.iter_Iter) : Prop := ∀ u, it.high_iter = some u → u.bv = it.ef.high.bv
 
-theorem itCon_itAbs (it : GenFn.iter_Iter) (h : ItBv it) : itCon it.ef (itAbs it) = it := by
+theorem efItCon_efItAbs (it : GenFn.iter_Iter) (h : EFItBv it) : efItCon it.ef (efItAbs it) = it := by
   obtain ⟨e, k, hi, a, b, c, d⟩ := it
   cases hi with
   | none => rfl
@@ -43,7 +43,7 @@ theorem itCon_itAbs (it : GenFn.iter_Iter) (h : ItBv it) : itCon it.ef (itAbs it
     rfl
 
 /-- what the generated `next` needs of the iterator state (model side) -/
-structure ItOkM (e : EF) (m : EF.It) : Prop where
+structure EFItOk (e : EF) (m : EF.It) : Prop where
   pos : ∀ u, m.high = some u → u.pos / 64 < e.high.bv.words.size
   buf : ∀ u, m.high = some u → u.buf < 2^64
   k   : ∀ u, m.high = some u → m.k ≤ e.len
@@ -52,7 +52,7 @@ structure ItOkM (e : EF) (m : EF.It) : Prop where
 
 /-- **`Iter::new`**: needs only the well-formed high-bit `DArray` and `low_len < 64` -/
 theorem ef_iter_new_eq_of (c : Cfg) (e : EF) (wf : DAWf c e.high) (hl : e.lowLen < 64) (k : Nat) :
-    GenFn.iter_Iter.new c e k = (EF.iter c e k).map (itCon e) := by
+    GenFn.iter_Iter.new c e k = (EF.iter c e k).map (efItCon e) := by
   unfold GenFn.iter_Iter.new EF.iter
   rw [ef_len_eq]
   cases hd : dassert c (decide (e.lowLen < 64)) with
@@ -90,14 +90,14 @@ theorem ef_iter_new_eq_of (c : Cfg) (e : EF) (wf : DAWf c e.high) (hl : e.lowLen
       · rw [if_neg hk, if_neg hk]; rfl
 
 theorem ef_iter_new_eq (c : Cfg) (e : EF) (ok : EFOk c e) (k : Nat) :
-    GenFn.iter_Iter.new c e k = (EF.iter c e k).map (itCon e) := ef_iter_new_eq_of c e ok.wf ok.llt k
+    GenFn.iter_Iter.new c e k = (EF.iter c e k).map (efItCon e) := ef_iter_new_eq_of c e ok.wf ok.llt k
 
 /-- **`EliasFano::iter`** -/
 theorem ef_iter_eq (c : Cfg) (e : EF) (ok : EFOk c e) (k : Nat) :
-    GenFn.EliasFano.iter c e k = (EF.iter c e k).map (itCon e) := ef_iter_new_eq c e ok k
+    GenFn.EliasFano.iter c e k = (EF.iter c e k).map (efItCon e) := ef_iter_new_eq c e ok k
 
-/-- the state `iter(k)` returns satisfies `ItOkM` -/
-theorem iter_okM (c : Cfg) (e : EF) (ok : EFOk c e) (k : Nat) (m : EF.It) (h : EF.iter c e k = .ok m) : ItOkM e m := by
+/-- the state `iter(k)` returns satisfies `EFItOk` -/
+theorem ef_iter_okM (c : Cfg) (e : EF) (ok : EFOk c e) (k : Nat) (m : EF.It) (h : EF.iter c e k = .ok m) : EFItOk e m := by
   unfold EF.iter at h
   cases hd : dassert c (decide (e.lowLen < 64)) with
   | error x => rw [hd] at h; cases h
@@ -106,7 +106,7 @@ theorem iter_okM (c : Cfg) (e : EF) (ok : EFOk c e) (k : Nat) (m : EF.It) (h : E
     simp only [] at h
     by_cases hk : k < e.len
     · rw [if_pos hk] at h
-      obtain ⟨p, _, hm, hkth, _⟩ := high_one c e ok k hk
+      obtain ⟨p, _, hm, hkth, _⟩ := ef_high_one c e ok k hk
       rw [hm, EFQ.unwrapO_some, EFQ.bind_ok, EFQ.bind_ok] at h
       cases h
       have hsz := ok.wf.inv.size
@@ -124,8 +124,8 @@ theorem iter_okM (c : Cfg) (e : EF) (ok : EFOk c e) (k : Nat) (m : EF.It) (h : E
 
 /-! ## `Iter::next` -/
 
-/-- the refill part of `next` (the generated text, `it_next_unfold`) -/
-def itRefill (c : Cfg) (s : GenFn.iter_Iter) : R GenFn.iter_Iter :=
+/-- the refill part of `next` (the generated text, `ef_it_next_unfold`) -/
+def efItRefill (c : Cfg) (s : GenFn.iter_Iter) : R GenFn.iter_Iter :=
   (if s.chunks_avail = 0 then
     (cmul c s.k s.ef.lowLen).bind fun t =>
     (GenFn.BitVector.get_word64 c s.ef.low t).bind fun t1 =>
@@ -140,7 +140,7 @@ def itRefill (c : Cfg) (s : GenFn.iter_Iter) : R GenFn.iter_Iter :=
     .ok self6 : R _)
 
 /-- the part of `next` after the refill -/
-def itTail (c : Cfg) (high_iter : GenFn.UnaryIter) (self7 : GenFn.iter_Iter) : R (GenFn.iter_Iter × Option Nat) :=
+def efItTail (c : Cfg) (high_iter : GenFn.UnaryIter) (self7 : GenFn.iter_Iter) : R (GenFn.iter_Iter × Option Nat) :=
   ((GenFn.UnaryIter.next c high_iter)).bind fun r =>
   let high_iter1 := r.1
   let self8 := { self7 with high_iter := some high_iter1 }
@@ -155,23 +155,23 @@ def itTail (c : Cfg) (high_iter : GenFn.UnaryIter) (self7 : GenFn.iter_Iter) : R
   let self12 := { self10 with low_buf := self11 }
   .ok (self12, some ret)
 
-theorem it_next_unfold (c : Cfg) (it : GenFn.iter_Iter) :
+theorem ef_it_next_unfold (c : Cfg) (it : GenFn.iter_Iter) :
     GenFn.iter_Iter.next c it =
       ((if it.k = GenFn.DArray.num_ones it.ef.high then .ok { it with high_iter := none } else .ok it : R _).bind
         fun self2 =>
         (match self2.high_iter with
-          | some high_iter => (itRefill c self2).bind (itTail c high_iter)
+          | some high_iter => (efItRefill c self2).bind (efItTail c high_iter)
           | _ => .ok (self2, none) : R _).bind fun j => .ok (j.1, j.2)) := rfl
 
 /-- the model's refill as a function of the iterator state -/
-def mRefill (c : Cfg) (e : EF) (m : EF.It) : R (Nat × Nat) :=
+def efMRefill (c : Cfg) (e : EF) (m : EF.It) : R (Nat × Nat) :=
   if m.chunksAvail = 0 then
     (unwrapO (e.low.getWord64 (m.k * e.lowLen))).bind fun w =>
     (csub c m.chunksInWord 1).bind fun a => .ok (w, a)
   else .ok (m.lowBuf, m.chunksAvail - 1)
 
 /-- the model's tail -/
-def mTail (c : Cfg) (e : EF) (m : EF.It) (hi : UIter) (ba : Nat × Nat) : R (EF.It × Option Nat) :=
+def efMTail (c : Cfg) (e : EF) (m : EF.It) (hi : UIter) (ba : Nat × Nat) : R (EF.It × Option Nat) :=
   (UIter.next c e.high.bv hi).bind fun hn =>
     match hn.2 with
     | none => .error .unwrapNone
@@ -180,17 +180,17 @@ def mTail (c : Cfg) (e : EF) (m : EF.It) (hi : UIter) (ba : Nat × Nat) : R (EF.
       (cshl c d e.lowLen).bind fun hv =>
       .ok (⟨m.k + 1, some hn.1, ba.1 >>> e.lowLen, m.lowMask, m.chunksInWord, ba.2⟩, some (hv ||| (ba.1 &&& m.lowMask)))
 
-theorem m_next_unfold (c : Cfg) (e : EF) (m : EF.It) :
+theorem ef_m_next_unfold (c : Cfg) (e : EF) (m : EF.It) :
     EF.It.next c e m =
       match (if m.k = e.len then none else m.high) with
       | none => .ok ({ m with high := none }, none)
-      | some hi => (mRefill c e m).bind (mTail c e m hi) := rfl
+      | some hi => (efMRefill c e m).bind (efMTail c e m hi) := rfl
 
-theorem refill_eq (c : Cfg) (e : EF) (m : EF.It) (hk : m.k * e.lowLen < 2^64) :
-    itRefill c (itCon e m) =
-      (mRefill c e m).map fun ba => itCon e { m with lowBuf := ba.1, chunksAvail := ba.2 } := by
+theorem ef_refill_eq (c : Cfg) (e : EF) (m : EF.It) (hk : m.k * e.lowLen < 2^64) :
+    efItRefill c (efItCon e m) =
+      (efMRefill c e m).map fun ba => efItCon e { m with lowBuf := ba.1, chunksAvail := ba.2 } := by
   obtain ⟨k, hi, lb, lm, ciw, ca⟩ := m
-  unfold itRefill mRefill itCon
+  unfold efItRefill efMRefill efItCon
   simp only []
   by_cases h0 : ca = 0
   · rw [if_pos h0, if_pos h0, cmul_ok c hk, bok, get_word64_eq c e.low _ hk]
@@ -206,7 +206,7 @@ theorem refill_eq (c : Cfg) (e : EF) (m : EF.It) (hk : m.k * e.lowLen < 2^64) :
     rfl
 
 /-- where the unary cursor is after a call that found a one -/
-theorem nextLoop_some_lt (bv : BV) : ∀ (n pos buf p b : Nat), pos / 64 < bv.words.size →
+theorem uiter_nextLoop_some_lt (bv : BV) : ∀ (n pos buf p b : Nat), pos / 64 < bv.words.size →
     UIter.nextLoop bv pos buf n = (p, some b) → p / 64 < bv.words.size := by
   intro n
   induction n with
@@ -228,13 +228,13 @@ theorem nextLoop_some_lt (bv : BV) : ∀ (n pos buf p b : Nat), pos / 64 < bv.wo
       · rw [if_neg hs] at h
         exact ih _ _ p b (by omega) h
 
-theorem unary_next_some (c : Cfg) (bv : BV) (h : bv.Inv) (hsz : bv.words.size * 64 < 2^64) (u u' : UIter) (a : Nat)
+theorem uiter_next_some (c : Cfg) (bv : BV) (h : bv.Inv) (hsz : bv.words.size * 64 < 2^64) (u u' : UIter) (a : Nat)
     (hp : u.pos / 64 < bv.words.size) (hb : u.buf < 2^64) (he : UIter.next c bv u = .ok (u', some a)) :
     u'.pos / 64 < bv.words.size ∧ u'.buf < 2^64 := by
   have hp64 : u.pos + 64 < 2^64 := by omega
   refine ⟨?_, (next_step_bound c bv h hsz u u' (some a) bv.words.size (Nat.le_refl _) (by omega) hp64 hb he).2⟩
   obtain ⟨pos, buf⟩ := u
-  have hq0 := nextLoop_some_lt bv (bv.words.size + 1) pos buf
+  have hq0 := uiter_nextLoop_some_lt bv (bv.words.size + 1) pos buf
   obtain ⟨hq1, hq2⟩ := nextLoop_bounds bv h.lt hsz (bv.words.size + 1) pos buf hp64 hb
   simp only [UIter.next] at he
   generalize UIter.nextLoop bv pos buf (bv.words.size + 1) = res at hq0 hq1 hq2 he
@@ -254,13 +254,13 @@ theorem unary_next_some (c : Cfg) (bv : BV) (h : bv.Inv) (hsz : bv.words.size * 
       show (q / 64 * 64 + r) / 64 < _
       omega
 
-theorem tail_eq (c : Cfg) (e : EF) (h : e.high.bv.Inv) (hlen : e.high.bv.len + 63 < 2^64) (hl : e.lowLen < 64)
+theorem ef_tail_eq (c : Cfg) (e : EF) (h : e.high.bv.Inv) (hlen : e.high.bv.len + 63 < 2^64) (hl : e.lowLen < 64)
     (m : EF.It) (u : UIter) (hk : m.k + 1 < 2^64)
     (hp : u.pos / 64 < e.high.bv.words.size) (hb : u.buf < 2^64) (ba : Nat × Nat) :
-    itTail c (uiCon e.high.bv u) (itCon e { m with lowBuf := ba.1, chunksAvail := ba.2 }) =
-      (mTail c e m u ba).map fun r => (itCon e r.1, r.2) := by
+    efItTail c (uiCon e.high.bv u) (efItCon e { m with lowBuf := ba.1, chunksAvail := ba.2 }) =
+      (efMTail c e m u ba).map fun r => (efItCon e r.1, r.2) := by
   have hsz := size_bound e.high.bv h hlen
-  unfold itTail mTail
+  unfold efItTail efMTail
   rw [unary_next_eq c (uiCon e.high.bv u) h hlen (by show u.pos + 64 < 2^64; omega) hb]
   simp only [uiCon_bv, uiAbs_uiCon]
   cases UIter.next c e.high.bv u with
@@ -290,9 +290,9 @@ theorem tail_eq (c : Cfg) (e : EF) (h : e.high.bv.Inv) (hlen : e.high.bv.len + 6
           rfl
 
 /-- **`Iter::next`**, on the generated image of a model state: same answer, same successor state -/
-theorem ef_iter_next_con (c : Cfg) (e : EF) (ok : EFOk c e) (m : EF.It) (w : ItOkM e m) :
-    GenFn.iter_Iter.next c (itCon e m) = (EF.It.next c e m).map fun r => (itCon e r.1, r.2) := by
-  rw [it_next_unfold, m_next_unfold]
+theorem ef_iter_next_con (c : Cfg) (e : EF) (ok : EFOk c e) (m : EF.It) (w : EFItOk e m) :
+    GenFn.iter_Iter.next c (efItCon e m) = (EF.It.next c e m).map fun r => (efItCon e r.1, r.2) := by
+  rw [ef_it_next_unfold, ef_m_next_unfold]
   obtain ⟨k, hi, lb, lm, ciw, ca⟩ := m
   show ((if k = e.len then _ else _ : R _).bind _) = _
   by_cases hk : k = e.len
@@ -302,26 +302,26 @@ theorem ef_iter_next_con (c : Cfg) (e : EF) (ok : EFOk c e) (m : EF.It) (w : ItO
     | none => rfl
     | some u =>
       have hkl : k < e.len := by have := w.k u rfl; simp only [] at this; omega
-      have hmul : k * e.lowLen < 2^64 := by have := chunk_fits c e ok k hkl; omega
+      have hmul : k * e.lowLen < 2^64 := by have := ef_chunk_fits c e ok k hkl; omega
       have hlen := ok.wf.len
       have hcl : e.len ≤ e.high.bv.len := by
         show e.high.numOnes ≤ _
         rw [ok.numOnes]; exact cnt_le _ _
-      show ((itRefill c (itCon e ⟨k, some u, lb, lm, ciw, ca⟩)).bind (itTail c (uiCon e.high.bv u))).bind _ = _
-      rw [refill_eq c e _ hmul]
+      show ((efItRefill c (efItCon e ⟨k, some u, lb, lm, ciw, ca⟩)).bind (efItTail c (uiCon e.high.bv u))).bind _ = _
+      rw [ef_refill_eq c e _ hmul]
       simp only []
-      cases mRefill c e ⟨k, some u, lb, lm, ciw, ca⟩ with
+      cases efMRefill c e ⟨k, some u, lb, lm, ciw, ca⟩ with
       | error x => rfl
       | ok ba =>
         rw [map_ok, bok, bok,
-          tail_eq c e ok.wf.inv (by omega) ok.llt ⟨k, some u, lb, lm, ciw, ca⟩ u (by show k + 1 < 2^64; omega)
+          ef_tail_eq c e ok.wf.inv (by omega) ok.llt ⟨k, some u, lb, lm, ciw, ca⟩ u (by show k + 1 < 2^64; omega)
             (w.pos u rfl) (w.buf u rfl) ba]
-        cases mTail c e ⟨k, some u, lb, lm, ciw, ca⟩ u ba <;> rfl
+        cases efMTail c e ⟨k, some u, lb, lm, ciw, ca⟩ u ba <;> rfl
 
-/-- `ItOkM` is kept by every successful `next` -/
-theorem next_okM (c : Cfg) (e : EF) (ok : EFOk c e) (m m' : EF.It) (a : Option Nat) (w : ItOkM e m)
-    (h : EF.It.next c e m = .ok (m', a)) : ItOkM e m' := by
-  rw [m_next_unfold] at h
+/-- `EFItOk` is kept by every successful `next` -/
+theorem ef_next_okM (c : Cfg) (e : EF) (ok : EFOk c e) (m m' : EF.It) (a : Option Nat) (w : EFItOk e m)
+    (h : EF.It.next c e m = .ok (m', a)) : EFItOk e m' := by
+  rw [ef_m_next_unfold] at h
   by_cases hk : m.k = e.len
   · rw [if_pos hk] at h
     cases h
@@ -338,11 +338,11 @@ theorem next_okM (c : Cfg) (e : EF) (ok : EFOk c e) (m m' : EF.It) (a : Option N
       have hkl : m.k < e.len := by have := w.k u hh; omega
       have hlen := ok.wf.len
       have hsz := size_bound e.high.bv ok.wf.inv (by omega)
-      cases hr : mRefill c e m with
+      cases hr : efMRefill c e m with
       | error x => rw [hr] at h; cases h
       | ok ba =>
         rw [hr, EFQ.bind_ok] at h
-        unfold mTail at h
+        unfold efMTail at h
         cases hn : UIter.next c e.high.bv u with
         | error x => rw [hn] at h; cases h
         | ok r =>
@@ -352,7 +352,7 @@ theorem next_okM (c : Cfg) (e : EF) (ok : EFOk c e) (m m' : EF.It) (a : Option N
           | none => cases h
           | some hv =>
             simp only [] at h
-            obtain ⟨g1, g2⟩ := unary_next_some c e.high.bv ok.wf.inv hsz u u' hv (w.pos u hh) (w.buf u hh) hn
+            obtain ⟨g1, g2⟩ := uiter_next_some c e.high.bv ok.wf.inv hsz u u' hv (w.pos u hh) (w.buf u hh) hn
             cases h1 : csub c hv m.k with
             | error x => rw [h1] at h; cases h
             | ok d =>
@@ -367,18 +367,18 @@ theorem next_okM (c : Cfg) (e : EF) (ok : EFOk c e) (m m' : EF.It) (a : Option N
                 · intro v hv'; cases hv'; exact g2
                 · intro v hv'; show m.k + 1 ≤ e.len; omega
 
-/-- **`Iter::next`** for any generated iterator state whose abstraction satisfies `ItOkM` -/
-theorem ef_iter_next_eq (c : Cfg) (it : GenFn.iter_Iter) (ok : EFOk c it.ef) (hbv : ItBv it)
-    (w : ItOkM it.ef (itAbs it)) :
-    GenFn.iter_Iter.next c it = (EF.It.next c it.ef (itAbs it)).map fun r => (itCon it.ef r.1, r.2) := by
-  have := ef_iter_next_con c it.ef ok (itAbs it) w
-  rw [itCon_itAbs it hbv] at this
+/-- **`Iter::next`** for any generated iterator state whose abstraction satisfies `EFItOk` -/
+theorem ef_iter_next_eq (c : Cfg) (it : GenFn.iter_Iter) (ok : EFOk c it.ef) (hbv : EFItBv it)
+    (w : EFItOk it.ef (efItAbs it)) :
+    GenFn.iter_Iter.next c it = (EF.It.next c it.ef (efItAbs it)).map fun r => (efItCon it.ef r.1, r.2) := by
+  have := ef_iter_next_con c it.ef ok (efItAbs it) w
+  rw [efItCon_efItAbs it hbv] at this
   exact this
 
 /-! ## `binsearch_range`, `binsearch` -/
 
-/-- body of the binary phase (the generated text, `bs_unfold`) -/
-def bsBody (c : Cfg) (e : EF) (val : Nat) (st : Nat × Nat) : R (RS.Step (Nat × Nat) (Option Nat)) :=
+/-- body of the binary phase (the generated text, `ef_bs_unfold`) -/
+def efBsBody (c : Cfg) (e : EF) (val : Nat) (st : Nat × Nat) : R (RS.Step (Nat × Nat) (Option Nat)) :=
   let hi1 := st.1
   let lo1 := st.2
   (csub c hi1 lo1).bind fun t =>
@@ -402,7 +402,7 @@ def bsBody (c : Cfg) (e : EF) (val : Nat) (st : Nat × Nat) : R (RS.Step (Nat ×
     .ok (.brk (hi1, lo1))
 
 /-- body of the linear scan -/
-def scanBody (c : Cfg) (val : Nat) (i : Nat) (it1 : GenFn.iter_Iter) : R (RS.Step GenFn.iter_Iter (Option Nat)) :=
+def efScanBody (c : Cfg) (val : Nat) (i : Nat) (it1 : GenFn.iter_Iter) : R (RS.Step GenFn.iter_Iter (Option Nat)) :=
   ((GenFn.iter_Iter.next c it1)).bind fun r =>
   let it2 := r.1
   (RS.unwrap r.2).bind fun x1 =>
@@ -411,35 +411,35 @@ def scanBody (c : Cfg) (val : Nat) (i : Nat) (it1 : GenFn.iter_Iter) : R (RS.Ste
   else
     .ok (.next it2)
 
-def scanPost (ex1 : RS.Exit GenFn.iter_Iter (Option Nat)) : R (Option Nat) :=
+def efScanPost (ex1 : RS.Exit GenFn.iter_Iter (Option Nat)) : R (Option Nat) :=
   match ex1 with
   | .ret rv1 => .ok rv1
   | .done st3 => .ok none
 
-def bsPost (c : Cfg) (e : EF) (val : Nat) (ex : RS.Exit (Nat × Nat) (Option Nat)) : R (Option Nat) :=
+def efBsPost (c : Cfg) (e : EF) (val : Nat) (ex : RS.Exit (Nat × Nat) (Option Nat)) : R (Option Nat) :=
   match ex with
   | .ret rv => .ok rv
   | .done st1 =>
     let hi3 := st1.1
     let lo3 := st1.2
     (GenFn.EliasFano.iter c e lo3).bind fun it =>
-    (RS.forRangeB lo3 hi3 it (scanBody c val)).bind scanPost
+    (RS.forRangeB lo3 hi3 it (efScanBody c val)).bind efScanPost
 
-theorem bs_unfold (c : Cfg) (e : EF) (range : Nat × Nat) (val : Nat) :
+theorem ef_bs_unfold (c : Cfg) (e : EF) (range : Nat × Nat) (val : Nat) :
     GenFn.EliasFano.binsearch_range c e range val =
       if ((decide (range.2 ≤ range.1)) = true) ∨ ((GenFn.EliasFano.len e) < range.2) then .ok none
-      else (RS.loopB (range.2, range.1) (bsBody c e val)).bind (bsPost c e val) := rfl
+      else (RS.loopB (range.2, range.1) (efBsBody c e val)).bind (efBsPost c e val) := rfl
 
 /-- the model's outcome of the binary phase as the exit of the generated loop -/
-def binExit : Sum Nat (Nat × Nat) → RS.Exit (Nat × Nat) (Option Nat)
+def efBinExit : Sum Nat (Nat × Nat) → RS.Exit (Nat × Nat) (Option Nat)
   | .inl i => .ret (some i)
   | .inr (lo, hi) => .done (hi, lo)
 
 /-- the binary phase: the window halves, so the model's budget of 65 rounds is never exhausted with a window
     above the threshold -/
-theorem bin_loop (c : Cfg) (e : EF) (ok : EFOk c e) (val : Nat) :
+theorem ef_bin_loop (c : Cfg) (e : EF) (ok : EFOk c e) (val : Nat) :
     ∀ (n N lo hi : Nat), n < N → lo ≤ hi → hi ≤ e.len → hi - lo < 64 * 2^n →
-      RS.loopFuel (bsBody c e val) N (hi, lo) = (EF.binPhase c e val lo hi n).map binExit := by
+      RS.loopFuel (efBsBody c e val) N (hi, lo) = (EF.binPhase c e val lo hi n).map efBinExit := by
   have hT : Gen.EF_LINEAR_SCAN_THRESHOLD = 64 := rfl
   have hlen := ok.wf.len
   have hcl : e.len ≤ e.high.bv.len := by
@@ -451,7 +451,7 @@ theorem bin_loop (c : Cfg) (e : EF) (ok : EFOk c e) (val : Nat) :
     intro N lo hi hN hle hhi hw
     obtain ⟨N', rfl⟩ : ∃ N', N = N' + 1 := ⟨N - 1, by omega⟩
     rw [loopFuel_succ]
-    unfold bsBody
+    unfold efBsBody
     simp only []
     rw [csub_ok c hle, bok, if_neg (by show ¬ hi - lo > 64; omega)]
     rfl
@@ -459,7 +459,7 @@ theorem bin_loop (c : Cfg) (e : EF) (ok : EFOk c e) (val : Nat) :
     intro N lo hi hN hle hhi hw
     obtain ⟨N', rfl⟩ : ∃ N', N = N' + 1 := ⟨N - 1, by omega⟩
     rw [loopFuel_succ, EF.binPhase]
-    unfold bsBody
+    unfold efBsBody
     simp only []
     rw [csub_ok c hle, bok]
     by_cases hgt : hi - lo > 64
@@ -482,17 +482,17 @@ theorem bin_loop (c : Cfg) (e : EF) (ok : EFOk c e) (val : Nat) :
       rfl
 
 /-- the linear scan -/
-theorem scan_loop (c : Cfg) (e : EF) (ok : EFOk c e) (val : Nat) :
-    ∀ (n i : Nat) (m : EF.It), ItOkM e m →
-      (RS.forCountB (scanBody c val) i n (itCon e m)).bind scanPost = EF.scanPhase c e val i m n := by
+theorem ef_scan_loop (c : Cfg) (e : EF) (ok : EFOk c e) (val : Nat) :
+    ∀ (n i : Nat) (m : EF.It), EFItOk e m →
+      (RS.forCountB (efScanBody c val) i n (efItCon e m)).bind efScanPost = EF.scanPhase c e val i m n := by
   intro n
   induction n with
   | zero => intro i m _; rfl
   | succ n ih =>
     intro i m w
     rw [EF.scanPhase]
-    show ((scanBody c val i (itCon e m)).bind _).bind scanPost = _
-    unfold scanBody
+    show ((efScanBody c val i (efItCon e m)).bind _).bind efScanPost = _
+    unfold efScanBody
     rw [ef_iter_next_con c e ok m w]
     cases hn : EF.It.next c e m with
     | error x => rfl
@@ -507,20 +507,20 @@ theorem scan_loop (c : Cfg) (e : EF) (ok : EFOk c e) (val : Nat) :
         by_cases hv : val = x
         · rw [if_pos hv, if_pos hv]; rfl
         · rw [if_neg hv, if_neg hv, bok]
-          exact ih (i + 1) m' (next_okM c e ok m m' (some x) w hn)
+          exact ih (i + 1) m' (ef_next_okM c e ok m m' (some x) w hn)
 
 /-- **`EliasFano::binsearch_range`** (`Range<usize>` as the pair `(start, end)`): the generated function equals the
     model's, which `C04` characterises ("an index in the range holding `val` iff one exists") -/
 theorem ef_binsearch_range_eq (c : Cfg) (e : EF) (ok : EFOk c e) (range : Nat × Nat) (val : Nat) :
     GenFn.EliasFano.binsearch_range c e range val = EF.binsearchRange c e range.1 range.2 val := by
-  rw [bs_unfold]
+  rw [ef_bs_unfold]
   unfold EF.binsearchRange
   simp only [decide_eq_true_eq]
   rw [ef_len_eq]
   by_cases hc : range.2 ≤ range.1 ∨ e.len < range.2
   · rw [if_pos hc, if_pos hc]
   · rw [if_neg hc, if_neg hc, loopB_eq,
-      bin_loop c e ok val 65 RS.FUEL range.1 range.2 (by rw [FUEL_eq]; decide) (by omega) (by omega)
+      ef_bin_loop c e ok val 65 RS.FUEL range.1 range.2 (by rw [FUEL_eq]; decide) (by omega) (by omega)
         (by have := ok.wf.len
             have hcl : e.len ≤ e.high.bv.len := by
               show e.high.numOnes ≤ _
@@ -542,7 +542,7 @@ theorem ef_binsearch_range_eq (c : Cfg) (e : EF) (ok : EFOk c e) (range : Nat ×
         | error x => rfl
         | ok m =>
           rw [map_ok, bok, bok]
-          exact scan_loop c e ok val (hi - lo) lo m (iter_okM c e ok lo m hit)
+          exact ef_scan_loop c e ok val (hi - lo) lo m (ef_iter_okM c e ok lo m hit)
 
 /-- **`EliasFano::binsearch`** -/
 theorem ef_binsearch_eq (c : Cfg) (e : EF) (ok : EFOk c e) (val : Nat) :
